@@ -57,7 +57,7 @@ class Application:
 
         self.is_ready: threading.Event = threading.Event()
         self._node: Node | None = None
-        self._answer_waiting: dict[int, WaitingMessage] = {}
+        self._answer_waiting: dict[tuple[int, int], WaitingMessage] = {}
 
     def __str__(self):
         return f"<{self.name} ({self.application_id})>"
@@ -107,7 +107,8 @@ class Application:
 
     def receive_answer(self, message: Message):
         waiting = self._answer_waiting.get(
-            message.header.hop_by_hop_identifier)
+            (message.header.hop_by_hop_identifier,
+             message.header.end_to_end_identifier))
         if waiting is not None:
             waiting.answer = message
             waiting.event.set()
@@ -206,7 +207,10 @@ class Application:
         peer, _ = self.node.route_request(self, message)
 
         waiting = WaitingMessage()
-        self._answer_waiting[message.header.hop_by_hop_identifier] = waiting
+        # hop-by-hop identifiers are unique per connection only
+        waiting_id = (message.header.hop_by_hop_identifier,
+                      message.header.end_to_end_identifier)
+        self._answer_waiting[waiting_id] = waiting
         self.node.send_message(peer, message)
 
         try:
@@ -220,7 +224,7 @@ class Application:
         except Exception:
             raise
         finally:
-            del self._answer_waiting[message.header.hop_by_hop_identifier]
+            del self._answer_waiting[waiting_id]
 
     def start(self):
         logger.info(f"{self} application started")
